@@ -27,6 +27,7 @@ def detectOut (w : W) : W × String :=
 def step (w : W) (ws : List String) : W × String :=
   match ws with
   | ["new"] => ({}, "ok")
+  | ["race"] => (w, "race done")     -- directed schedule for known finding F5 (monitor only)
   | ["blk", _] =>
     let n := w.s.chain.length            -- index of the new block
     let c := (w.created.getD n 0) + 1
